@@ -364,13 +364,17 @@ def r17(text, arg, what):
 ALLOC_PATTERNS = [r'\bwith_capacity\s*\(', r'\bvec!\s*\[[^\]]*;', r'\.reserve(?:_exact)?\s*\(', r'\.repeat\s*\(', r'\.resize\s*\(']
 
 
-def unrouted_allocations(text):
+def unrouted_allocations(text, allow=()):
     """allocation sites whose size is an expression, still present after the rewrites (must be none)"""
     m = rp.mask(text)
     out = []
     for p in ALLOC_PATTERNS:
         for mm in re.finditer(p, m):
+            if re.search(r'\bfn\s+$', m[max(0, mm.start() - 12):mm.start()]):
+                continue    # a function that happens to be called with_capacity
             line = text[text.rfind('\n', 0, mm.start()) + 1:text.find('\n', mm.end())].strip()
+            if any(a in line for a in allow):
+                continue    # a contracted allocation function of the unit itself (its precondition carries the allowance)
             if 'verif_vec_with_capacity' in line or 'verif_hashmap_with_capacity' in line or 'verif_vec_from_elem' in line:
                 continue
             out.append(line)
@@ -537,16 +541,29 @@ SIMPLE_IDIOMS = {
 }
 
 
-RULES = {'R1': r1, 'R3': r3, 'R6': r6, 'R8': r8, 'R16': r16, 'R18': r18, 'R2': r2, 'R17': r17, 'R19': r19, 'R21': r21, 'R4': r4}
+def _noop(text, arg, what):
+    return text, 0
+
+
+RULES = {'ALLOW': _noop, 'R1': r1, 'R3': r3, 'R6': r6, 'R8': r8, 'R16': r16, 'R18': r18, 'R2': r2, 'R17': r17, 'R19': r19, 'R21': r21, 'R4': r4}
 
 
 def apply(text, uses, what):
+    """apply the named rewrites.  A rewrite whose pattern does not occur (any more) is skipped and logged with count 0:
+    the code may have been refactored; the verifier then sees the new code as it is (and rejects it as unsupported, or
+    checks it).  Only unknown rule names are fatal."""
     log = []
     for u in uses:
         name, _, arg = u.partition(':')
         if name not in RULES:
             raise AnchorError(f'{what}: rewrite {name} is not in the closed list')
-        text, cnt = RULES[name](text, arg, what)
+        try:
+            text, cnt = RULES[name](text, arg, what)
+        except AnchorError as e:
+            if 'requested but' in str(e):
+                log.append((u + ' (pattern absent)', what, 0))
+                continue
+            raise
         if cnt:
             log.append((u, what, cnt))
     return text, log
